@@ -71,8 +71,25 @@ def convert_value(value):
     return None
 
 
+def convert_key(key):
+    """
+    Convert the key of an attribute.
+
+    :param key: the key
+    :return: the key, with what cannot be encoded as UTF-8 escaped (as in the values)
+    """
+    if isinstance(key, str):
+        try:
+            key.encode('utf-8')
+        except UnicodeEncodeError:
+            # e.g. a key from DEEP_RESOURCE_ATTRIBUTES with a stray byte: it must not cost every poll and snapshot
+            return key.encode('utf-8', 'backslashreplace').decode('utf-8')
+    return key
+
+
 def __value_as_dict(value):
-    return KeyValueList(values=[KeyValue(key=k, value=convert_value(v) or AnyValue()) for k, v in value.items()])
+    return KeyValueList(values=[KeyValue(key=convert_key(k), value=convert_value(v) or AnyValue())
+                                for k, v in value.items()])
 
 
 def __value_as_list(value):
@@ -92,7 +109,7 @@ def convert_resource(resource):
 
 def __convert_attributes(attributes):
     return Resource(dropped_attributes_count=attributes.dropped,
-                    attributes=[KeyValue(key=k, value=convert_value(v)) for k, v in attributes.items()])
+                    attributes=[KeyValue(key=convert_key(k), value=convert_value(v)) for k, v in attributes.items()])
 
 
 def __convert_static_value(value):
